@@ -1,5 +1,5 @@
 (* C06 - Unknown options, extensions and entity members are skipped, not fatal. *)
-From Ctap Require Import Base Schema Wire Utf8 Typed Procs Inst Tables CborItem WireP SkipP TypedP EntriesP FramingP ObRequestSide FnShapes Shapes ObShapeRequest.
+From Ctap Require Import Base Schema Wire Utf8 Typed Procs Inst Tables CborItem WireP SkipP TypedP EntriesP FramingP ObRequestSide FnShapes Shapes ObShapeRequest Deps ObDeps.
 Local Open Scope string_scope.
 Local Open Scope Z_scope.
 
@@ -91,6 +91,10 @@ Proof. exact generated_request_side. Qed.
 Theorem c06_modelled_functions_unchanged_request : shapes_hold fn_shapes shapes_request = true.
 Proof. exact generated_shapes_request. Qed.
 
+(* the third-party crates the model represents by hand are pinned at the versions it was written against *)
+Theorem c06_modelled_dependencies_pinned : deps_hold lock_versions cargo_deps = true.
+Proof. exact generated_deps. Qed.
+
 Eval vm_compute in "ASSUMPTIONS c06_skip_exact". Print Assumptions c06_skip_exact.
 Eval vm_compute in "ASSUMPTIONS c06_unknown_member_step". Print Assumptions c06_unknown_member_step.
 Eval vm_compute in "ASSUMPTIONS c06_unknown_members_irrelevant". Print Assumptions c06_unknown_members_irrelevant.
@@ -99,3 +103,4 @@ Eval vm_compute in "ASSUMPTIONS c06_generated_conforms". Print Assumptions c06_g
 Eval vm_compute in "ASSUMPTIONS c06_modelled_functions_unchanged_request". Print Assumptions c06_modelled_functions_unchanged_request.
 Eval vm_compute in "ASSUMPTIONS c06_enclosing_parameter_map_unchanged". Print Assumptions c06_enclosing_parameter_map_unchanged.
 Eval vm_compute in "ASSUMPTIONS c06_enclosing_dictionary_unchanged". Print Assumptions c06_enclosing_dictionary_unchanged.
+Eval vm_compute in "ASSUMPTIONS c06_modelled_dependencies_pinned". Print Assumptions c06_modelled_dependencies_pinned.
